@@ -6,7 +6,7 @@ import gen, render, dumpparse
 VERIF = "/verif"
 REPO = os.environ.get("VERIF_REPO", "/repo")
 LEAN_DIR = os.path.join(VERIF, "lean")
-WORK_ROOT = os.path.join(VERIF, "work")
+WORK_ROOT = os.environ.get("VERIF_WORK", os.path.join(VERIF, "work"))
 DRIVER = os.path.join(LEAN_DIR, ".lake", "build", "bin", "bbdriver")
 
 CARGO_ENV = dict(os.environ, CARGO_NET_OFFLINE="true", RUSTFLAGS=os.environ.get("VERIF_RUSTFLAGS", ""))
